@@ -2,7 +2,7 @@
 ''' Sensitivity self-test on the defects that were repaired in /repo
 (DESIGN 8.2): for every "fix:" commit, a scratch worktree of HEAD gets that
 one commit reverse-applied (the original defect comes back, everything else
-stays fixed), and the quick check of the property that should notice must
+stays fixed; where later fixes touched the same lines, selftest/reverts/<sha>.diff does it by hand), and the quick check of the property that should notice must
 exit 1 with a VIOLATION line whose replay reproduces.
 
 usage: selftest/regress.py [--budget S] [commit-prefix ...]
@@ -53,6 +53,7 @@ EXPECT = [
     ('verify every security block even when accepted ones are removed', ['C12']),
     ('record a security reason code when verifying', ['C12']),
     ('treat a security block whose content cannot be decoded', ['C12']),
+    ('do not report a bundle as forwarded when forwarding it failed', ['C19']),
     ('restart the BTP-U receive timeout', ['C20']),
     ('send BTP-U frames on the listening socket', ['C20']),
 ]
@@ -82,10 +83,15 @@ def main():
         wtree = os.path.join(tmp, 'wt')
         try:
             subprocess.run(['git', '-C', '/repo', 'worktree', 'add', '--detach', wtree, 'HEAD'], capture_output=True, check=True)
-            patch = subprocess.run(['git', '-C', '/repo', 'show', sha], capture_output=True, check=True).stdout
-            rev = subprocess.run(['git', '-C', wtree, 'apply', '-R', '--3way'], input=patch, capture_output=True)
-            if rev.returncode != 0:
-                rev = subprocess.run(['git', '-C', wtree, 'apply', '-R'], input=patch, capture_output=True)
+            manual = os.path.join(VERIF, 'selftest', 'reverts', sha[:7] + '.diff')
+            if os.path.exists(manual):
+                # later fixes touched the same lines: hand-written patch that takes this one fix out of HEAD
+                rev = subprocess.run(['git', '-C', wtree, 'apply', manual], capture_output=True)
+            else:
+                patch = subprocess.run(['git', '-C', '/repo', 'show', sha], capture_output=True, check=True).stdout
+                rev = subprocess.run(['git', '-C', wtree, 'apply', '-R', '--3way'], input=patch, capture_output=True)
+                if rev.returncode != 0:
+                    rev = subprocess.run(['git', '-C', wtree, 'apply', '-R'], input=patch, capture_output=True)
             if rev.returncode != 0:
                 results.append(dict(commit=sha, subject=subject, status='cannot-revert'))
                 print('%s  cannot be reverse-applied on HEAD  %s' % (sha, subject))
